@@ -864,6 +864,10 @@ fn split_text(s: &str) -> Vec<String> {
     let mut is_leading_whitespace = true;
     let mut is_backslash_prev = false;
 
+    // A backslash inside a string literal escapes the next character,
+    // so that \" does not terminate the string literal.
+    let mut is_escaped = false;
+
     let mut iter = s.chars().peekable();
     while let Some(c) = iter.next() {
 
@@ -902,7 +906,7 @@ fn split_text(s: &str) -> Vec<String> {
             x = String::from("");
             x.push(c);
             is_string = true;
-        } else if c == '"' && is_string {
+        } else if c == '"' && is_string && !is_escaped {
             x.push(c);
             ret.push(x);
             x = String::from("");
@@ -920,6 +924,7 @@ fn split_text(s: &str) -> Vec<String> {
         }
 
         is_backquote_prev = c == '`';
+        is_escaped = is_string && c == '\\' && !is_escaped;
     }
     ret.push(x);
     ret
